@@ -81,6 +81,22 @@ class Raised:
         self.exc = exc
 
 
+class RangeV:
+    """range(lo, hi, step)"""
+    __slots__ = ('lo', 'hi', 'step')
+
+    def __init__(self, lo, hi, step=1):
+        self.lo, self.hi, self.step = lo, hi, step
+
+
+class IterV:
+    """enumerate(x) / reversed(x) / dict views: kind in 'enumerate' 'reversed' 'keys' 'values' 'items'"""
+    __slots__ = ('kind', 'base')
+
+    def __init__(self, kind, base):
+        self.kind, self.base = kind, base
+
+
 class Closure:
     def __init__(self, node, frame_index, globs, qualname):
         self.node = node
